@@ -42,10 +42,11 @@ def _call(direction, case, zone, east, north, h="case", vcv="case"):
     f = _fn(direction)
     hh = case.get("h") if h == "case" else h
     vv = case.get("vcv") if vcv == "case" else vcv
-    args = [zone, east, north]
+    nk = case.get("num", "float")
+    args = [zone, S.as_kind(east, nk), S.as_kind(north, nk)]
     kw = {}
     if hh is not None:
-        kw["ell_ht"] = hh
+        kw["ell_ht"] = S.as_kind(hh, nk)
     if vv is not None:
         kw["vcv"] = np.array(vv, dtype=float)
     r = f(*args, **kw)
@@ -196,7 +197,11 @@ def mga_cases(draw, with_vcv=False):
     n = round(n, 4)
     hsel = draw(st.integers(0, 3))
     h = None if hsel == 0 else (0.0 if hsel == 1 else draw(st.one_of(S.floats(-100.0, 3000.0), st.sampled_from([-100.0, 3000.0, 0.0977, -0.0977]))))
-    c = {"dir": draw(st.sampled_from(["94to2020", "2020to94"])), "zone": zone, "east": e, "north": n, "h": h}
+    c = {"dir": draw(st.sampled_from(["94to2020", "2020to94"])), "zone": zone, "east": e, "north": n, "h": h, "num": draw(S.num_kind)}
+    if c["num"] == "int":
+        c["east"], c["north"] = float(round(e)), float(round(n))      # whole metres, as a user would type them
+        if h is not None:
+            c["h"] = float(round(h))
     if with_vcv:
         c["vcv"] = draw(TR.psd3())
     return c
